@@ -64,3 +64,16 @@ package scheduler
 //@   at[phcount] call scheduler.PartitionContext.decPhAllocationCount#* after: assume phcounted(alloc)
 //@   at[phcounted] append released#*: assert elem == alloc && (!alloc.placeholder || phcounted(alloc))
 //@   at[confirmed] append confirmed#1: assert elem == release && alloc.placeholder && alloc.nodeID != release.nodeID
+
+// ================================================================ C06 / C13: release processing
+
+// a confirmed placeholder swap: the replacement is only dereferenced when there is one; the queue is decreased by
+// what left the nodes; the node swap gets real - placeholder as delta
+//@ func (pc *PartitionContext) removeAllocation(release *si.AllocationRelease) (released []*objects.Allocation, confirmed *objects.Allocation)
+//@   props C06 C13 C03
+//@   sweep
+//@   mode nopanic=off
+//@   at[confirmed] call objects.Allocation.GetAllocatedResource#1: assert arg0 != nil && arg0 == alloc.release
+//@   at[swap] call objects.Node.ReplaceAllocation#1: assert arg0 == node && arg1 == alloc.allocationKey && arg2 == confirmed && confirmed != nil && confirmed.nodeID == alloc.nodeID && (forall t Key :: rv(arg3, t) == clamp64(rv(confirmed.allocatedResource, t) - rv(alloc.allocatedResource, t)))
+//@   at[queue] call objects.Queue.DecAllocatedResource#1: assert arg0 == queue && arg1 == total
+//@   at[preempting] call objects.Queue.DecPreemptingResource#1: assert arg0 == queue && arg1 == totalPreempting
